@@ -1,10 +1,63 @@
 CFG = {
     "modules": ["Parsley.Props.C13"],
-    "theorems": [],
+    "theorems": [
+        "Parsley.C13.table_roundtrip",
+        "Parsley.C13.xrefstream_rows_roundtrip",
+        "Parsley.C13.numbering_consecutive",
+        "Parsley.C13.dictinfo_rejects",
+        "Parsley.C13.dictinfo_accepts",
+        "Parsley.C13.dictinfo_never_panics",
+        "Parsley.C13.entry_spec",
+        "Parsley.C13.entry_malformed_rejected",
+        "Parsley.C13.table_malformed_later_subsection_rejected",
+        "Parsley.C13.rows_terminate",
+        "Parsley.C13.rows_hostile_count_rejected",
+        "Parsley.C13.old_loop_truncates_witness",
+        "Parsley.C13.fixed_loop_rejects_witness",
+    ],
+    "partial": {},
     "n": {"quick": 400, "thorough": 20000},
     "exhaustive": {"quick": True, "thorough": True},
-    "rule": "tbd",
-    "trusted_base": COMMON_TB + [],
-    "assumptions": [],
+    "rule": "corpus (defect #32 inputs, spot checks); exhaustive: every 2-byte terminator over {SP,CR,LF,NUL,x} x 4 type letters x "
+            "entry position (first subsection / first and second entry of a later subsection), the 3 legal terminators x 10 "
+            "continuations; all 125 width triples {0..4}^3 x with/without /Index x random rows (plus truncated rows, a type byte "
+            "above 2, Flate with none/Predictor 1/PNG-Up at two compression levels); 44 single-field corruptions of the stream "
+            "dictionary; n random legal tables (1-4 subsections, random starts up to 2^63-1000, leading zeros, blanks, header EOLs, "
+            "0-5 entries, 3 terminators) each with 2 (quick) or all 16 (thorough) single-field corruptions of one entry, one "
+            "random byte alteration, one truncation and one shifted start; header oddities; one large table and stream. "
+            "non-trivial = described table with >= 2 subsections or a corruption; stream case with >= 4 content bytes or a "
+            "non-standard dictionary",
+    "trusted_base": COMMON_TB + [
+        "modelled, not verified: ParseBuffer (extract/exact/peek/parse_allowed_bytes) as list operations on a whole buffer (views: C17); "
+        "str::parse::<usize> on ASCII digits as positional decimal value; BTreeMap dictionary as an association list with unique keys",
+        "external to the model: the filter transforms (FlateDecode, predictors) are a parameter of the model; `xz` cases check the "
+        "composition with the real transforms against rows compressed by the harness (flate2) - their correctness is C06/C07",
+        "harness builds the StreamT/DictT through the crate's public constructors from a small dictionary description language "
+        "(parsed independently in Lean and in Rust)",
+    ],
+    "assumptions": [
+        "the buffer is an unrestricted ParseBuffer (restricted views are covered by C17)",
+        "table_roundtrip: every subsection holds at least one entry, subsection starts and counts are below 2^63 (i64 integers), "
+        "blanks before a later header contain no CR; what follows the table does not start a number after optional blanks",
+        "xref-stream theorems: integers in the dictionary are i64 values (so start + count cannot overflow usize)",
+    ],
 }
-LEVEL = {"design_ref": "DESIGN.md 3.C13", "technique": "tbd", "text": "tbd"}
+LEVEL = {
+    "design_ref": "DESIGN.md 3.C13",
+    "technique": "Lean 4 theorems over an executable line-by-line model of XrefEntP/XrefSubSectP/XrefSectP and XrefStreamP "
+                 "(get_dict_info, filters, parse_stream) + differential correspondence with the Rust parsers, judged by an "
+                 "independent declarative spec (encoders, 20-byte entry form, dictionary meaning, row slicing)",
+    "text": "Machine-checked proof, for all inputs: (table) XrefSectP on the encoding of any non-empty list of non-empty subsections "
+            "(any partition, starts < 2^63, header numbers with any leading zeros, blanks, any header EOL white space) of entries "
+            "with any of the three terminators returns exactly those entries numbered consecutively from each subsection's start "
+            "(table_roundtrip); XrefEntP accepts iff the 20 bytes under the cursor are in the fixed form, with value/span/cursor as "
+            "specified, and never panics (entry_spec); a malformed entry reached by the count of a second or later subsection makes "
+            "the whole section fail (table_malformed_later_subsection_rejected - the fixed code; the shipped loop is shown to "
+            "truncate silently by old_loop_truncates_witness); (stream) for all widths in {0..4}^3, /Index partitions or the "
+            "implicit [0 Size], rows fitting the widths decode to exactly the written entries (xrefstream_rows_roundtrip); "
+            "get_dict_info rejects iff the dictionary is malformed in the listed ways and otherwise returns the denoted "
+            "subsections and widths, never panicking (dictinfo_rejects/accepts/never_panics); entries are numbered start+k on every "
+            "accepted input (numbering_consecutive); each row consumes >= 1 byte so a hostile /Size fails at the first missing row "
+            "(rows_terminate, rows_hostile_count_rejected). Tied to the code by a correspondence run over encoder-generated tables "
+            "and streams, single-field corruptions, all 125 width triples and Flate+PNG-Up compositions.",
+}
